@@ -2,6 +2,8 @@ package props
 
 import (
 	"fmt"
+	"go/token"
+	"regexp"
 	"strings"
 
 	"golang.org/x/tools/go/ssa"
@@ -21,13 +23,20 @@ func shortLease(s string) string {
 	return strings.ReplaceAll(s, "(dhcp4_spoofer.Handler).findOrCreate(recv,dhcp4_spoofer.getClientID(arg1,arg2),(packet.DHCP4).CHAddr(arg1),local(nameEntry).Name)", "LEASE")
 }
 
+// shortLeaseD: the lease of handleDiscover in short form.
+func shortLeaseD(s string) string {
+	return leaseCallRe.ReplaceAllString(s, "LEASE")
+}
+
+var leaseCallRe = regexp.MustCompile(`\(dhcp4_spoofer\.Handler\)\.findOrCreate\(recv,[^()]*(\([^()]*(\([^()]*\)[^()]*)*\)[^()]*)*\)`)
+
 func runC11(c *Ctx) {
 	r := c.R
 	r.Explanation = "Structural conditions of DHCP address uniqueness and reserved-address protection, decided on the CFG of handlers/dhcp4_spoofer. (offer) every assignment of an address to Lease.IPOffer in allocIPOffer is dominated by: the lease table has no entry for it, or a free one, or (requested address only) the client's own; the session tracks no host with it; and it is a usable host address of the lease's subnet — " +
 		"for the requested address LAN.Contains, not the network address, not the broadcast address; for the sequential search the cursor idiom nextIP < broadcast starting at FirstIP. " +
 		"(ack) the acknowledgement section of handleRequest is entered from each operation arm only with the lease in state Discover or Allocated established by a dominating test, the address acknowledged is lease.Addr.IP, taken from IPOffer only on the Discover path, and the refusal condition of the selecting arm contains the hardware, transaction-id, offered-address and leased-address mismatches. " +
-		"(free) DECLINE frees a lease only when server id, address and hardware address match; expiry frees by DHCPExpiry. Not decided: uniqueness over interleavings of several clients (for example two clients holding offers for one address), timing."
-	r.Rule("offer", "addresses are offered only if free in the lease table, unknown to the session and inside the subnet", 12)
+		"(free) DECLINE frees a lease only when server id, address and hardware address match; expiry frees by DHCPExpiry. (interleavings, two clauses) an address on offer to two clients is acknowledged once: findByIP sees outstanding offers or the commit of an offer is preceded by findByIP(lease.IPOffer) and a NAK when another lease holds it; handleDiscover keeps an old IPOffer only for an outstanding offer (or every site that frees a lease clears it). Not decided: uniqueness over arbitrary interleavings beyond these clauses, timing."
+	r.Rule("offer", "addresses are offered only if free in the lease table, unknown to the session and inside the subnet", 14)
 	r.Rule("ack", "acknowledgements require an outstanding offer or lease of the same client, address and transaction", 9)
 	r.Rule("free", "leases are freed only by their owner's DECLINE or by expiry", 4)
 
@@ -151,12 +160,8 @@ func runC11(c *Ctx) {
 	if hr != nil {
 		var join *ssa.BasicBlock
 		var ackCall ssa.CallInstruction
-		core.EachInstr(hr, func(i ssa.Instruction) {
-			// the acknowledgement section starts with lease.Name = nameEntry.Name, at the join after the operation switch
-			if s, ok := i.(*ssa.Store); ok && shortLease(norm(s.Addr)) == "LEASE.Name" && norm(s.Val) == "local(nameEntry).Name" && len(i.Block().Preds) > 1 {
-				join = i.Block()
-			}
-		})
+		// the acknowledgement section starts at the join after the operation switch
+		join = ackJoin(hr)
 		for _, s := range callsIn(hr, nameIs("EncodeDHCP4")) {
 			if len(s.Common().Args) > 2 && norm(s.Common().Args[2]) == "5" {
 				ackCall = s
@@ -247,6 +252,162 @@ func runC11(c *Ctx) {
 						Basis: "the refusal of the selecting arm is reached by " + atom, Detail: "the selecting arm does not refuse a request on: " + what})
 				}
 			}
+		}
+	}
+	// (offer) two clients never hold offers for one address: the lookup that allocIPOffer relies on sees outstanding
+	// offers (IPOffer of a lease in state Discover), or the commit of an offer in handleRequest looks the address up again
+	{
+		fb := c.P.Method(dhcpRel, "Handler", "findByIP")
+		seesOffers := false
+		if fb != nil && len(fb.Params) == 2 {
+			core.EachInstr(fb, func(i ssa.Instruction) {
+				bo, ok := i.(*ssa.BinOp)
+				if !ok || bo.Op != token.EQL {
+					return
+				}
+				x, y := norm(bo.X), norm(bo.Y)
+				if (strings.HasSuffix(x, ".IPOffer") && bo.Y == ssa.Value(fb.Params[1])) || (strings.HasSuffix(y, ".IPOffer") && bo.X == ssa.Value(fb.Params[1])) {
+					seesOffers = true
+				}
+			})
+		}
+		recheck := false
+		if hr := c.P.Method(dhcpRel, "Handler", "handleRequest"); hr != nil {
+			core.EachInstr(hr, func(i ssa.Instruction) {
+				st, ok := i.(*ssa.Store)
+				if !ok || !strings.HasSuffix(shortLease(norm(st.Addr)), "LEASE.Addr.IP") || !strings.HasSuffix(shortLease(norm(st.Val)), "LEASE.IPOffer") {
+					return
+				}
+				// a refusal that the commit cannot bypass: a NAK site guarded by "the address's holder is another lease in
+				// state Allocated", where the holder was looked up with findByIP(lease.IPOffer) before the commit
+				for _, nk := range callsIn(hr, nameIs("nakPacket")) {
+					nki := nk.(ssa.Instruction)
+					var lookup ssa.Value
+					notSelf, allocated := false, false
+					for _, g := range guardsOf(nki) {
+						t := shortLease(g.Text)
+						if !strings.Contains(t, "findByIP(recv,LEASE.IPOffer)") {
+							continue
+						}
+						switch {
+						case strings.HasSuffix(t, ".State==2)") && g.Pol:
+							allocated = true
+							if bo, ok := g.Cond.(*ssa.BinOp); ok {
+								lookup = bo.X
+							}
+						case strings.HasSuffix(t, "==LEASE)") && !g.Pol:
+							notSelf = true
+						}
+					}
+					if !allocated || !notSelf || lookup == nil {
+						continue
+					}
+					// the lookup precedes the commit on every path
+					for _, fc := range callsIn(hr, nameIs("findByIP")) {
+						if fc.(ssa.Instruction).Block().Dominates(i.Block()) {
+							recheck = true
+						}
+					}
+				}
+			})
+		}
+		st := core.Proved
+		if !seesOffers && !recheck {
+			st = core.Violated
+		}
+		pos := ""
+		if fb != nil {
+			pos = c.P.Pos(fb.Pos())
+		}
+		r.Add(core.Obligation{Rule: "offer", Key: "offer outstanding offers are visible to the reservation lookup", Func: "(*dhcp4_spoofer.Handler).findByIP", Pos: pos, Status: st,
+			Basis:  fmt.Sprintf("findByIP compares the candidate with Lease.IPOffer: %v; the commit of an offer re-checks with findByIP: %v", seesOffers, recheck),
+			Detail: "findByIP matches Lease.Addr.IP only and the commit `lease.Addr.IP = lease.IPOffer` in handleRequest does not look the address up again: an address offered to one client (not yet requested) is offered to a second client that asks for it, and both REQUESTs are acknowledged"})
+	}
+	// (offer) an old offer is not handed out again without going through allocIPOffer: on every path of handleDiscover to
+	// the `IPOffer.IsValid()` test, IPOffer was assigned on that path or the lease is an outstanding offer (state Discover)
+	if hd := c.P.Method(dhcpRel, "Handler", "handleDiscover"); hd != nil {
+		var test ssa.Instruction
+		for _, s := range callsIn(hd, nameIs("IsValid")) {
+			if len(s.Common().Args) == 1 && strings.HasSuffix(shortLeaseD(norm(s.Common().Args[0])), "LEASE.IPOffer") {
+				test = s.(ssa.Instruction)
+			}
+		}
+		if test == nil {
+			r.Add(core.Obligation{Rule: "offer", Key: "offer handleDiscover keeps an old offer only while it is outstanding", Func: core.FuncName(hd), Status: core.Undecided, Detail: "the IPOffer.IsValid() test of handleDiscover was not found"})
+		} else {
+			paths, complete := pathsTo(test.Block(), 256)
+			st := core.Proved
+			det := ""
+			if !complete || len(paths) == 0 {
+				st, det = core.Undecided, "the paths to the IPOffer.IsValid() test could not be enumerated"
+			}
+			for _, p := range paths {
+				assigned := false
+				for _, b := range p.Blocks {
+					for _, ins := range b.Instrs {
+						if sto, ok := ins.(*ssa.Store); ok && strings.HasSuffix(shortLeaseD(norm(sto.Addr)), "LEASE.IPOffer") {
+							assigned = true
+						}
+					}
+				}
+				outstanding := false
+				for _, cd := range p.Conds {
+					if shortLeaseD(cd) == "(LEASE.State==1)" {
+						outstanding = true
+					}
+				}
+				if !assigned && !outstanding {
+					var cs []string
+					for _, cd := range p.Conds {
+						cs = append(cs, shortLeaseD(cd))
+					}
+					st = core.Violated
+					det = "a lease that is neither allocated nor an outstanding offer (for example freed by expiry, which leaves IPOffer set) reaches the offer with its old IPOffer, without allocIPOffer's tests: path " + strings.Join(cs, " && ")
+					break
+				}
+			}
+			// the other way to keep the invariant "a free lease has no offer": every place that frees a lease clears IPOffer
+			freeSites, cleared := 0, 0
+			var notCleared []string
+			if st == core.Violated {
+				for _, fn := range c.P.LibFunctions() {
+					if fn.Pkg == nil || fn.Pkg.Pkg.Name() != "dhcp4_spoofer" {
+						continue
+					}
+					core.EachInstr(fn, func(i ssa.Instruction) {
+						sto, ok := i.(*ssa.Store)
+						if !ok {
+							return
+						}
+						fa, isFA := sto.Addr.(*ssa.FieldAddr)
+						k, isC := sto.Val.(*ssa.Const)
+						if !isFA || !isC || fieldOwner(fa) != "dhcp4_spoofer.Lease.State" || k.Value == nil || k.Int64() != 0 {
+							return
+						}
+						freeSites++
+						okClear, _ := mustPass(i, func(j ssa.Instruction) bool {
+							s2, ok2 := j.(*ssa.Store)
+							if !ok2 {
+								return false
+							}
+							fa2, isFA2 := s2.Addr.(*ssa.FieldAddr)
+							return isFA2 && fa2.X == fa.X && strings.HasSuffix(norm(s2.Addr), ".IPOffer") && isZeroStruct(s2.Val)
+						})
+						if okClear {
+							cleared++
+						} else {
+							notCleared = append(notCleared, c.P.Pos(core.PosOf(i)))
+						}
+					})
+				}
+				if freeSites > 0 && cleared == freeSites {
+					st, det = core.Proved, ""
+				} else {
+					det += fmt.Sprintf("; and %d of %d sites that free a lease leave IPOffer set (%s)", freeSites-cleared, freeSites, strings.Join(notCleared, ", "))
+				}
+			}
+			r.Add(core.Obligation{Rule: "offer", Key: "offer handleDiscover keeps an old offer only while it is outstanding", Func: core.FuncName(hd), Pos: c.P.Pos(core.PosOf(test)), Status: st,
+				Basis: fmt.Sprintf("%d paths to the IsValid test: each assigns IPOffer or runs under State == Discover; or every site that frees a lease clears IPOffer (%d of %d)", len(paths), cleared, freeSites), Detail: det})
 		}
 	}
 	if hr := c.P.Method(dhcpRel, "Handler", "handleRequest"); hr != nil {
@@ -478,12 +639,7 @@ func runC12(c *Ctx) {
 	// never ACK what cannot be honoured: every entry into the acknowledgement section has an offer or a lease
 	r.Rule("ack", "the acknowledgement section is entered only with an outstanding offer or lease", 4)
 	if hr := c.P.Method(dhcpRel, "Handler", "handleRequest"); hr != nil {
-		var join *ssa.BasicBlock
-		core.EachInstr(hr, func(i ssa.Instruction) {
-			if s, ok := i.(*ssa.Store); ok && shortLease(norm(s.Addr)) == "LEASE.Name" && norm(s.Val) == "local(nameEntry).Name" && len(i.Block().Preds) > 1 {
-				join = i.Block()
-			}
-		})
+		join := ackJoin(hr)
 		if join == nil {
 			add("ack", "ack section", hr, nil, false, "", "the acknowledgement section of handleRequest was not found")
 		} else {
@@ -661,4 +817,28 @@ func selectingAcceptTable(hr *ssa.Function) (ok bool, why string, n int) {
 		return true, "", n
 	}
 	return false, "the refusal site of the selecting arm was not found", 0
+}
+
+// ackJoin: the block where the operation arms of handleRequest merge into the acknowledgement section: the multi-entry
+// dominator of the ACK construction closest to the entry that is still below the lease lookup (findOrCreate).
+func ackJoin(hr *ssa.Function) *ssa.BasicBlock {
+	var ack, lookup ssa.Instruction
+	for _, s := range callsIn(hr, nameIs("EncodeDHCP4")) {
+		if len(s.Common().Args) > 2 && norm(s.Common().Args[2]) == "5" {
+			ack = s.(ssa.Instruction)
+		}
+	}
+	for _, s := range callsIn(hr, nameIs("findOrCreate")) {
+		lookup = s.(ssa.Instruction)
+	}
+	if ack == nil || lookup == nil {
+		return nil
+	}
+	var join *ssa.BasicBlock
+	for d := ack.Block(); d != nil && d != lookup.Block(); d = d.Idom() {
+		if len(d.Preds) > 1 && lookup.Block().Dominates(d) {
+			join = d
+		}
+	}
+	return join
 }
